@@ -42,7 +42,7 @@ def Err.show : Err → String
 inductive Res (α : Type) where
   | ok (a : α) (rest : Bytes)
   | err (e : Err)
-  deriving Repr, Inhabited
+  deriving Repr, Inhabited, DecidableEq
 
 /-- a decoder step: current suffix ↦ value and new suffix, or an error class -/
 abbrev P (α : Type) := Bytes → Res α
@@ -83,40 +83,47 @@ def peek : Bytes → Option UInt8
   | _ :: b :: _ => some b
   | _ => none
 
+/-- the arms of `Decoder::type_of` that need no look-ahead (every initial byte except `0x38..=0x3b`) -/
+def typeOfPlain (v : Nat) : DType :=
+  if v ≤ 0x18 then .u8
+  else if v = 0x19 then .u16
+  else if v = 0x1a then .u32
+  else if v = 0x1b then .u64
+  else if 0x20 ≤ v ∧ v ≤ 0x37 then .i8
+  else if 0x40 ≤ v ∧ v ≤ 0x5b then .bytes
+  else if v = 0x5f then .bytesIndef
+  else if 0x60 ≤ v ∧ v ≤ 0x7b then .string
+  else if v = 0x7f then .stringIndef
+  else if 0x80 ≤ v ∧ v ≤ 0x9b then .array
+  else if v = 0x9f then .arrayIndef
+  else if 0xa0 ≤ v ∧ v ≤ 0xbb then .map
+  else if v = 0xbf then .mapIndef
+  else if 0xc0 ≤ v ∧ v ≤ 0xdb then .tag
+  else if (0xe0 ≤ v ∧ v ≤ 0xf3) ∨ v = 0xf8 then .simple
+  else if v = 0xf4 ∨ v = 0xf5 then .bool
+  else if v = 0xf6 then .null
+  else if v = 0xf7 then .undefined
+  else if v = 0xf9 then .f16
+  else if v = 0xfa then .f32
+  else if v = 0xfb then .f64
+  else if v = 0xff then .brk
+  else .unknown v
+
+/-- the four arms `0x38 | 0x39 | 0x3a | 0x3b => if self.peek()? < 0x80 { lo } else { hi }` -/
+def typeOfSigned (v : Nat) (small : Bool) : DType :=
+  if v = 0x38 then (if small then .i8 else .i16)
+  else if v = 0x39 then (if small then .i16 else .i32)
+  else if v = 0x3a then (if small then .i32 else .i64)
+  else (if small then .i64 else .int)
+
 /-- `Decoder::type_of(n)` evaluated while the decoder's suffix is `cur` -/
 def typeOf (cur : Bytes) (n : UInt8) : Except Err DType :=
   let v := n.toNat
-  let signed (lo hi : DType) : Except Err DType :=
+  if 0x38 ≤ v ∧ v ≤ 0x3b then
     match peek cur with
     | none => .error .eoi
-    | some p => .ok (if p.toNat < 0x80 then lo else hi)
-  if v ≤ 0x18 then .ok .u8
-  else if v = 0x19 then .ok .u16
-  else if v = 0x1a then .ok .u32
-  else if v = 0x1b then .ok .u64
-  else if 0x20 ≤ v ∧ v ≤ 0x37 then .ok .i8
-  else if v = 0x38 then signed .i8 .i16
-  else if v = 0x39 then signed .i16 .i32
-  else if v = 0x3a then signed .i32 .i64
-  else if v = 0x3b then signed .i64 .int
-  else if 0x40 ≤ v ∧ v ≤ 0x5b then .ok .bytes
-  else if v = 0x5f then .ok .bytesIndef
-  else if 0x60 ≤ v ∧ v ≤ 0x7b then .ok .string
-  else if v = 0x7f then .ok .stringIndef
-  else if 0x80 ≤ v ∧ v ≤ 0x9b then .ok .array
-  else if v = 0x9f then .ok .arrayIndef
-  else if 0xa0 ≤ v ∧ v ≤ 0xbb then .ok .map
-  else if v = 0xbf then .ok .mapIndef
-  else if 0xc0 ≤ v ∧ v ≤ 0xdb then .ok .tag
-  else if (0xe0 ≤ v ∧ v ≤ 0xf3) ∨ v = 0xf8 then .ok .simple
-  else if v = 0xf4 ∨ v = 0xf5 then .ok .bool
-  else if v = 0xf6 then .ok .null
-  else if v = 0xf7 then .ok .undefined
-  else if v = 0xf9 then .ok .f16
-  else if v = 0xfa then .ok .f32
-  else if v = 0xfb then .ok .f64
-  else if v = 0xff then .ok .brk
-  else .ok (.unknown v)
+    | some p => .ok (typeOfSigned v (decide (p.toNat < 0x80)))
+  else .ok (typeOfPlain v)
 
 /-- `Err(Error::type_mismatch(self.type_of(b)?))` with the decoder at suffix `cur` -/
 def errTypeOf (cur : Bytes) (b : UInt8) : Err :=
@@ -344,45 +351,49 @@ def skipAfter (st : SkipSt) : Option SkipSt :=
     | [] => none
   else some { st with nrounds := st.nrounds - 1 }
 
+/-- the `match self.current()?` of one loop iteration (the decoder is at a byte `b`): the new
+    counters and whether the bookkeeping after the match runs (`false` = the `continue` of a tag head) -/
+def skipArm (st : SkipSt) : P (SkipSt × Bool) := fun cur =>
+  match cur with
+  | [] => .err .eoi
+  | b :: r =>
+    let v := b.toNat
+    if v ≤ 0x1b then (u64 cur).map fun _ => (st, true)
+    else if 0x20 ≤ v ∧ v ≤ 0x3b then (int cur).map fun _ => (st, true)
+    else if 0x40 ≤ v ∧ v ≤ 0x5f then (bytesIter cur).map fun _ => (st, true)
+    else if 0x60 ≤ v ∧ v ≤ 0x7f then (strIter cur).map fun _ => (st, true)
+    else if 0x80 ≤ v ∧ v ≤ 0x9f then
+      (array cur).map fun l =>
+        match l with
+        | some n => (skipDef st n, true)
+        | none => (skipIndef st, true)
+    else if 0xa0 ≤ v ∧ v ≤ 0xbf then
+      (map cur).map fun l =>
+        match l with
+        | some n => (skipDef st (satMul n 2), true)
+        | none => (skipIndef st, true)
+    else if 0xc0 ≤ v ∧ v ≤ 0xdb then (unsigned (info b) r).map fun _ => (st, false)
+    else if 0xe0 ≤ v ∧ v ≤ 0xfb then (unsigned (info b) r).map fun _ => (st, true)
+    else if v = 0xff then
+      if st.nrounds = 0 ∧ st.irounds = 0 then
+        match st.stack with
+        | none :: s => .ok ({ st with stack := s }, true) r
+        | _ => .ok (st, true) r
+      else .ok ({ st with irounds := st.irounds - 1 }, true) r
+    else .err .typ
+
+/-- the `while nrounds > 0 || irounds > 0 || !stack.is_empty()` loop -/
 def skipLoop : Nat → SkipSt → P Unit
   | 0, _, _ => .err .diverge
   | fuel + 1, st, cur =>
     if st.nrounds = 0 ∧ st.irounds = 0 ∧ st.stack = [] then .ok () cur
     else
-      match cur with
-      | [] => .err .eoi
-      | b :: r =>
-        let v := b.toNat
-        let next (st' : SkipSt) (cur' : Bytes) : Res Unit :=
+      (skipArm st cur).andThen fun (st', post) c =>
+        if post then
           match skipAfter st' with
-          | none => .ok () cur'
-          | some st'' => skipLoop fuel st'' cur'
-        if v ≤ 0x1b then (u64 cur).andThen fun _ c => next st c
-        else if 0x20 ≤ v ∧ v ≤ 0x3b then (int cur).andThen fun _ c => next st c
-        else if 0x40 ≤ v ∧ v ≤ 0x5f then (bytesIter cur).andThen fun _ c => next st c
-        else if 0x60 ≤ v ∧ v ≤ 0x7f then (strIter cur).andThen fun _ c => next st c
-        else if 0x80 ≤ v ∧ v ≤ 0x9f then
-          (array cur).andThen fun l c =>
-            match l with
-            | some n => next (skipDef st n) c
-            | none => next (skipIndef st) c
-        else if 0xa0 ≤ v ∧ v ≤ 0xbf then
-          (map cur).andThen fun l c =>
-            match l with
-            | some n => next (skipDef st (satMul n 2)) c
-            | none => next (skipIndef st) c
-        else if 0xc0 ≤ v ∧ v ≤ 0xdb then
-          -- `continue`: the bookkeeping after the match is not run for a tag head
-          (unsigned (info b) r).andThen fun _ c => skipLoop fuel st c
-        else if 0xe0 ≤ v ∧ v ≤ 0xfb then
-          (unsigned (info b) r).andThen fun _ c => next st c
-        else if v = 0xff then
-          if st.nrounds = 0 ∧ st.irounds = 0 then
-            match st.stack with
-            | none :: s => next { st with stack := s } r
-            | _ => next st r
-          else next { st with irounds := st.irounds - 1 } r
-        else .err .typ
+          | none => .ok () c
+          | some st'' => skipLoop fuel st'' c
+        else skipLoop fuel st' c
 
 /-- `Decoder::skip()` -/
 def skip : P Unit := fun cur => skipLoop (cur.length + 1) ⟨1, 0, []⟩ cur
